@@ -40,3 +40,90 @@ pub fn c07_prio2_verifier_share() {
     kani::cover!(r.is_err());
     core::mem::forget((r, short, long, st));
 }
+
+fn le32(b: &[u8]) -> u32 {
+    u32::from_le_bytes([b[0], b[1], b[2], b[3]])
+}
+
+const PR2: u32 = 4293918721;
+
+//@ harness: c07_prio2_input_share
+//@ prop: C07,C08,C19
+//@ tier: quick
+//@ cost: 90
+//@ funcs: <Share<FieldPrio2,32> as ParameterizedDecode<(&Prio2, usize)>>::decode_with_param, Share::{encode, encoded_len}, role_try_from
+//@ bounds: Prio2 with input_len 1 (leader share = proof_length(1) = 6 elements = 24 bytes; helper share = 32-byte seed); every byte string of the honest length and of honest+-1; every aggregator id (usize)
+//@ asserts: leader: accepted iff all six elements are below the modulus, encoded_len 24; helper: every 32-byte string, encoded_len 32; other lengths and aggregator ids >= 2 refused
+//@ stubs: alloc::fmt::format
+#[kani::proof]
+#[kani::unwind(34)]
+#[kani::stub(alloc::fmt::format, fmt_stub)]
+pub fn c07_prio2_input_share() {
+    let vdaf = Prio2::new(1).unwrap();
+    let b: [u8; 33] = kani::any();
+    let l = Share::<FieldPrio2, 32>::get_decoded_with_param(&(&vdaf, 0usize), &b[..24]);
+    let mut canon = true;
+    let mut k = 0;
+    while k < 6 {
+        canon &= le32(&b[4 * k..]) < PR2;
+        k += 1;
+    }
+    assert_eq!(l.is_ok(), canon);
+    if let Ok(v) = &l {
+        assert!(matches!(v, Share::Leader(d) if d.len() == 6));
+        assert_eq!(v.encoded_len(), Some(24));
+    }
+    let l1 = Share::<FieldPrio2, 32>::get_decoded_with_param(&(&vdaf, 0usize), &b[..23]);
+    let l2 = Share::<FieldPrio2, 32>::get_decoded_with_param(&(&vdaf, 0usize), &b[..25]);
+    assert!(l1.is_err() && l2.is_err());
+    let h = Share::<FieldPrio2, 32>::get_decoded_with_param(&(&vdaf, 1usize), &b[..32]);
+    assert!(h.is_ok());
+    if let Ok(v) = &h {
+        assert!(matches!(v, Share::Helper(_)));
+        assert_eq!(v.encoded_len(), Some(32));
+    }
+    let h1 = Share::<FieldPrio2, 32>::get_decoded_with_param(&(&vdaf, 1usize), &b[..31]);
+    let h2 = Share::<FieldPrio2, 32>::get_decoded_with_param(&(&vdaf, 1usize), &b[..]);
+    assert!(h1.is_err() && h2.is_err());
+    let id: usize = kani::any();
+    kani::assume(id >= 2);
+    let bad = Share::<FieldPrio2, 32>::get_decoded_with_param(&(&vdaf, id), &b[..24]);
+    assert!(bad.is_err());
+    kani::cover!(l.is_ok());
+    kani::cover!(l.is_err());
+    core::mem::forget((l, l1, l2, h, h1, h2, bad));
+}
+
+//@ harness: c07_prio2_verifier_state
+//@ prop: C07,C08,C19
+//@ tier: quick
+//@ cost: 60
+//@ funcs: Prio2VerifierState::{decode_with_param, encode, encoded_len}
+//@ bounds: Prio2 with input_len 2: leader state = 2 elements (8 bytes), helper state = 32-byte seed; honest length and +-1
+//@ asserts: leader: accepted iff both elements canonical, encoded_len 8; helper: every 32-byte string; other lengths refused
+//@ stubs: alloc::fmt::format
+#[kani::proof]
+#[kani::unwind(34)]
+#[kani::stub(alloc::fmt::format, fmt_stub)]
+pub fn c07_prio2_verifier_state() {
+    let vdaf = Prio2::new(2).unwrap();
+    let b: [u8; 33] = kani::any();
+    let l = Prio2VerifierState::get_decoded_with_param(&(&vdaf, 0usize), &b[..8]);
+    assert_eq!(l.is_ok(), le32(&b[0..]) < PR2 && le32(&b[4..]) < PR2);
+    if let Ok(v) = &l {
+        assert_eq!(v.encoded_len(), Some(8));
+    }
+    let l1 = Prio2VerifierState::get_decoded_with_param(&(&vdaf, 0usize), &b[..7]);
+    let l2 = Prio2VerifierState::get_decoded_with_param(&(&vdaf, 0usize), &b[..9]);
+    assert!(l1.is_err() && l2.is_err());
+    let h = Prio2VerifierState::get_decoded_with_param(&(&vdaf, 1usize), &b[..32]);
+    assert!(h.is_ok());
+    if let Ok(v) = &h {
+        assert_eq!(v.encoded_len(), Some(32));
+    }
+    let h2 = Prio2VerifierState::get_decoded_with_param(&(&vdaf, 1usize), &b[..]);
+    assert!(h2.is_err());
+    kani::cover!(l.is_ok());
+    kani::cover!(l.is_err());
+    core::mem::forget((l, l1, l2, h, h2));
+}
